@@ -33,7 +33,10 @@ Proof. apply enc_loop_safe. Qed.
 
 Lemma ebytes_safe : forall ops lb p, Forall safe_char (ebytes ops lb p).
 Proof.
-  induction ops as [|[|gc si ol oc nm] r IH]; intros lb p.
+  induction ops as [|[|gc si ol oc nm|gc] r IH]; intros lb p.
+  4:{ rewrite ebytes_null, null_seg_eq.
+      repeat (apply Forall_app; split); try apply encodeVLQ_safe; try apply IH.
+      destruct (sepb lb); [constructor; [unfold safe_char, COMMA; lia|constructor]|constructor]. }
   - constructor.
   - rewrite ebytes_newline. constructor; [unfold safe_char, SEMI; lia|apply IH].
   - destruct (ebytes_map_gen gc si ol oc nm r lb p) as (lb' & _ & ->).
